@@ -46,6 +46,10 @@ func seedCluster(b *vx.B) (*gossip.Cluster, [][]byte, []byte) {
 		return d, true, nil
 	})
 	vx.Wait()
+	watch1 = []*gossip.Watch{c.AddWatch(1, gossip.RingKey, false, true), c.AddWatch(1, gossip.PRingKey, false, false)}
+	for _, w := range watch1 {
+		changedKey(c, w.Key, w)
+	}
 	var msgs [][]byte
 	for _, w := range c.GossipRound(0, math.MaxInt32) {
 		msgs = append(msgs, w.Data)
@@ -115,8 +119,57 @@ func mutate(rt *rapid.T, data []byte) []byte {
 }
 
 // checkInbound feeds data to node 1 through one of the two receive paths and checks the result.
-func checkInbound(c *gossip.Cluster, data []byte, full bool) error {
+var watch1 []*gossip.Watch
+
+// changedKey reports whether the visible value of the watcher's key differs from what it saw last.
+func changedKey(c *gossip.Cluster, key string, w *gossip.Watch) bool {
+	r, p := c.State(1)
+	var cur string
+	if key == gossip.RingKey {
+		cur = gossip.VisibleOf(r, ring.NewPartitionRingDesc())
+	} else {
+		cur = gossip.VisibleOf(ring.NewDesc(), p)
+	}
+	changed := cur != w.SeenValue
+	_, calls, _ := w.Snapshot()
+	w.SeenValue, w.SeenCalls = cur, calls
+	return changed
+}
+
+func checkInbound(c *gossip.Cluster, data []byte, full bool) (err error) {
 	before := c.Canon(1)
+	visBefore, _ := c.Visible(1)
+	defer func() {
+		// whatever the node learned from the input, it tells its watchers and its peers
+		if err != nil || c.Canon(1) == before {
+			return
+		}
+		time.Sleep(3 * time.Second)
+		vx.Wait()
+		if l, g := c.Nodes[1].VerifQueued(); l+g == 0 && len(c.GossipRound(1, math.MaxInt32)) == 0 {
+			// (GossipRound may already have drained the queue in an earlier call: look at the pool too)
+			err = fmt.Errorf("the node's state changed through inbound data but it queued nothing to tell its peers")
+			return
+		}
+		vis, _ := c.Visible(1)
+		if vis == visBefore {
+			return
+		}
+		for _, w := range watch1 {
+			last, calls, _ := w.Snapshot()
+			want := ""
+			if r, p := c.State(1); w.Key == gossip.RingKey {
+				want = gossip.VisibleOf(r, ring.NewPartitionRingDesc())
+			} else {
+				want = gossip.VisibleOf(ring.NewDesc(), p)
+			}
+			_ = want
+			if calls == w.SeenCalls && changedKey(c, w.Key, w) {
+				err = fmt.Errorf("the value of key %q changed through inbound data but its watcher was not called (calls=%d, last=%v)", w.Key, calls, last)
+				return
+			}
+		}
+	}()
 	if full {
 		// reference: a twin node with the same state receives the well-formed pairs one by one
 		c.PushPull(1, 2)
